@@ -116,6 +116,14 @@ func genEmuConfig(r *rand.Rand) procdrv.EmuConfig {
 			c.StgIP = shaped(c.StgIP)
 		}
 	}
+	if r.Intn(8) == 0 { // a HOST NAME where an address may stand (the SCTP layer resolves names itself): the name is the value
+		name := pick(r, "localhost", "LocalHost", "LOCALHOST", "localhost.", hostsName(r), "amf.5gc.mnc001.mcc001.3gppnetwork.org", "no-such-host.invalid")
+		if r.Intn(2) == 0 {
+			c.AmfIP = name
+		} else {
+			c.StgIP = name
+		}
+	}
 	c.DLIface, c.ULIface = "verif-none0", "verif-none1"
 	c.UeNumber = 1
 	if r.Intn(5) == 0 { // two keys that happen to hold the same value are still two keys
@@ -298,4 +306,25 @@ func textOctets(r *rand.Rand, n int) []byte {
 		b[i] = alphabet[r.Intn(len(alphabet))]
 	}
 	return b
+}
+
+// hostsName: a name this machine's hosts file resolves (whatever it is called here), or "localhost".
+func hostsName(r *rand.Rand) string {
+	b, err := os.ReadFile("/etc/hosts")
+	if err != nil {
+		return "localhost"
+	}
+	var names []string
+	for _, l := range strings.Split(string(b), "\n") {
+		if i := strings.IndexByte(l, '#'); i >= 0 {
+			l = l[:i]
+		}
+		if f := strings.Fields(l); len(f) >= 2 {
+			names = append(names, f[1:]...)
+		}
+	}
+	if len(names) == 0 {
+		return "localhost"
+	}
+	return names[r.Intn(len(names))]
 }
